@@ -87,8 +87,8 @@ impl Property for C04 {
     }
     fn runs(&self, tier: Tier) -> u64 {
         match tier {
-            Tier::Quick => 40_000,
-            Tier::Thorough => 1_500_000,
+            Tier::Quick => 150_000,
+            Tier::Thorough => 4_000_000,
         }
     }
     fn probe_names(&self) -> &'static [&'static str] {
@@ -126,8 +126,10 @@ impl Property for C04 {
         let bbox = if large { [-90, -90, 230, 230] } else { gen_small_box(src) };
         let dev = DevCfg { bbox, caps, disc };
         let stack = gen_stack(src, &dev.r(), dev_kind, 3, true, 24, false);
-        let top_kind = crate::model::StackModel::new(dev.r(), dev_kind, &stack).top_kind();
-        let knobs = gen_knobs(src, top_kind.mask(), true);
+        let sm = crate::model::StackModel::new(dev.r(), dev_kind, &stack);
+        let top_kind = sm.top_kind();
+        let mut knobs = gen_knobs(src, top_kind.mask(), true);
+        knobs.aim_at(&sm.top_box());
         let drawable = gen_drawable(src, &knobs, top_kind.bits());
         let pick = src.draw(1 << 16);
         Scenario {
